@@ -58,7 +58,7 @@ void harness(void) {
 '''
 
 def prepare(tier, vf):
-    gendir = os.path.join(vf.BUILD, "gen", "C02")
+    gendir = os.path.join(vf.BUILD, "gen", vf.tree_hash(), "C02")
     hdir = os.path.join(gendir, "h")
     os.makedirs(hdir, exist_ok=True)
     for f in os.listdir(hdir):
